@@ -11,6 +11,10 @@ import Ark.Model.DrvC13
 import Ark.Model.DrvC14
 import Ark.Model.DrvC08
 import Ark.Model.DrvC18
+import Ark.Model.DrvC06
+import Ark.Model.DrvC11
+import Ark.Model.DrvC04
+import Ark.Model.DrvC09
 /-  arkdrv: one op per line on stdin: `<prop> <op> args… => <impl output>` → one line `model|verdict` -/
 open Ark
 
@@ -20,6 +24,8 @@ structure DrvState where
   c02 : DrvC02.Cache := {}
   c07 : DrvC07.Cache := {}
   c13 : DrvC13.Cache := {}
+  c06 : DrvC06.Cache := {}
+  c11 : DrvC11.Cache := {}
 
 def dispatch (st : DrvState) (line : String) : DrvState × String :=
   let (inp, impl) := match line.trimAscii.toString.splitOn " => " with
@@ -29,6 +35,26 @@ def dispatch (st : DrvState) (line : String) : DrvState × String :=
   match inp.splitOn " " with
   | "C15" :: op :: args =>
     match DrvC15.run op args impl with
+    | some (m, s) => (st, m ++ "|" ++ s)
+    | none => (st, "bad-op")
+  | "C06" :: op :: args =>
+    match DrvC06.run st.c06 op args impl with
+    | some (c, m, s) => ({ st with c06 := c }, m ++ "|" ++ s)
+    | none => (st, "bad-op")
+  | "C11" :: op :: args =>
+    match DrvC11.run st.c11 op args impl with
+    | some (c, m, s) => ({ st with c11 := c }, m ++ "|" ++ s)
+    | none => (st, "bad-op")
+  | "C04" :: op :: args =>
+    match DrvC04.run op args impl with
+    | some (m, s) => (st, m ++ "|" ++ s)
+    | none => (st, "bad-op")
+  | "C09" :: op :: args =>
+    match DrvC09.run op args impl with
+    | some (m, s) => (st, m ++ "|" ++ s)
+    | none => (st, "bad-op")
+  | "C10" :: op :: args =>
+    match DrvC09.run op args impl with
     | some (m, s) => (st, m ++ "|" ++ s)
     | none => (st, "bad-op")
   | "C14" :: op :: args =>
